@@ -572,10 +572,20 @@ class DimensionValue(Value):
             item = seq[0]
 
             sign, v, d = self.__reUnNumDim.findall(normalize(item.value))[0]
-            if '.' in v:
-                val = float(sign + v)
-            else:
-                val = int(sign + v)
+            try:
+                if '.' in v:
+                    val = float(sign + v)
+                else:
+                    val = int(sign + v)
+            except ValueError:
+                # more digits than Python converts to an int
+                val = float('inf')
+            if val in (float('inf'), float('-inf')):
+                self.wellformed = False
+                self._log.error(
+                    'DimensionValue: Number too large: %s...' % item.value[:20]
+                )
+                return
 
             dim = None
             if d:
